@@ -22,6 +22,56 @@ pub enum Case {
     Slice { lens: Vec<usize>, tuple: bool, limit: Option<usize> },
     /// Array / tuple of `Vec<u8>` with these (capacity, fill).
     MutSlice { bufs: Vec<(usize, usize)>, tuple: bool, limit: Option<usize> },
+    /// A `&'static [u8]` / `&'static str` of `len` bytes (2^32-1 and more) over a lazily mapped,
+    /// never touched region, optionally limited: the laws that do not read the bytes.
+    Huge { str_slice: bool, len: usize, limit: Option<usize> },
+}
+
+/// A read-only region of a bit more than 5 GiB that is never touched (no memory is committed).
+fn huge_region() -> &'static [u8] {
+    static REGION: std::sync::OnceLock<usize> = std::sync::OnceLock::new();
+    const LEN: usize = (5 << 30) + 4096;
+    let addr = *REGION.get_or_init(|| {
+        let p = unsafe { libc::mmap(std::ptr::null_mut(), LEN, libc::PROT_READ, libc::MAP_PRIVATE | libc::MAP_ANONYMOUS | libc::MAP_NORESERVE, -1, 0) };
+        assert!(p != libc::MAP_FAILED, "mapping the huge region");
+        p as usize
+    });
+    unsafe { std::slice::from_raw_parts(addr as *const u8, LEN) }
+}
+
+fn run_huge(str_slice: bool, len: usize, limit: Option<usize>, out: &mut Vec<Violation>) {
+    let region = huge_region();
+    let slice: &'static [u8] = &region[..len];
+    fn laws<B: Buf>(b: &B, what: &str, base: usize, len: usize, limit: Option<usize>, out: &mut Vec<Violation>) {
+        let (ptr, plen) = unsafe { b.parts() };
+        let plen = plen as usize;
+        let bound = limit.map_or(len, |l| l.min(len));
+        if (ptr as usize) != base || plen > bound {
+            out.push(v(&format!("huge/outside-buffer/{what}"), format!("a {len}-byte buffer (limit {limit:?}) exposes {plen} bytes at {:#x}; its memory is {len} bytes at {base:#x}", ptr as usize)));
+        }
+        if b.len() != plen {
+            out.push(v(&format!("huge/len-disagrees/{what}"), format!("a {len}-byte buffer (limit {limit:?}): len() = {} but the pointer/length pair exposes {plen} bytes", b.len())));
+        }
+        if b.is_empty() != (plen == 0) {
+            out.push(v(&format!("huge/len-disagrees/{what}"), format!("a {len}-byte buffer (limit {limit:?}): is_empty() = {} but the pointer/length pair exposes {plen} bytes", b.is_empty())));
+        }
+        if plen == 0 && bound > 0 {
+            out.push(v(&format!("huge/nothing-exposed/{what}"), format!("a {len}-byte buffer (limit {limit:?}) exposes no bytes at all")));
+        }
+    }
+    let base = slice.as_ptr() as usize;
+    match (str_slice, limit) {
+        (false, None) => laws(&slice, "static-slice", base, len, limit, out),
+        (false, Some(l)) => laws(&slice.limit(l), "static-slice", base, len, limit, out),
+        (true, _) => {
+            // (All zero bytes: valid UTF-8; the conversion is unchecked so that the region stays untouched.)
+            let s: &'static str = unsafe { std::str::from_utf8_unchecked(slice) };
+            match limit {
+                None => laws(&s, "static-str", base, len, limit, out),
+                Some(l) => laws(&s.limit(l), "static-str", base, len, limit, out),
+            }
+        }
+    }
 }
 
 fn v(sig: &str, msg: String) -> Violation {
@@ -490,6 +540,7 @@ pub fn run(case: &Case) -> Vec<Violation> {
         Case::Mut { cap, fill, limit } => run_mut(*cap, *fill, *limit, &mut out),
         Case::Slice { lens, tuple, limit } => run_slice(lens, *tuple, *limit, &mut out),
         Case::MutSlice { bufs, tuple, limit } => run_mut_slice(bufs, *tuple, *limit, &mut out),
+        Case::Huge { str_slice, len, limit } => run_huge(*str_slice, *len, *limit, &mut out),
     }
     out
 }
@@ -511,6 +562,14 @@ fn limits(c: usize, total: usize) -> Vec<Option<usize>> {
 
 pub fn cases(quick: bool) -> Vec<Case> {
     let mut v = Vec::new();
+    // Buffers of 4 GiB and more (lengths no longer fit the 32 bits io_uring uses).
+    for str_slice in [false, true] {
+        for len in [(1usize << 32) - 1, 1 << 32, (1 << 32) + 5, 5 << 30] {
+            for limit in [None, Some(7usize), Some((1 << 32) - 1), Some(1 << 32), Some((1 << 32) + 5), Some(usize::MAX)] {
+                v.push(Case::Huge { str_slice, len, limit });
+            }
+        }
+    }
     for ty in 0..N_BUF_TYPES {
         let lens: Vec<usize> = if quick { vec![0usize, 1, 2, 3, 8, 16] } else { (0..=24).chain([64, 255, 256, 4096]).collect() };
         for len in lens {
